@@ -17,9 +17,29 @@
                            output of the confirmed commitment;
      local_sub_conf        protocol shape: an offered HTLC on our commitment
                            is also on the confirmed one;
-     fixed                 false = lnd as it is, true = notes/C12-fix.diff. *)
+     fixed                 false = lnd as it is, true = notes/C12-fix.diff.
+
+   Shape hypotheses DERIVED (Arb/Shape.v, end of this file):
+     sets_of s p           the three HTLC sets the arbitrator of party p sees
+                           in state s of the two-party channel model
+                           (Channel/Model.v): Local = HTLCs of p's revoked-into
+                           local commitment, Remote = of the acked remote one,
+                           RemotePending = of the signed, not yet revoked
+                           remote commitment (empty if there is none);
+     has_pending s p       p holds such a pending remote commitment;
+     shape hasp c          wf c /\ local_sub_conf k c for every close kind k
+                           (k = KPending only if hasp);
+     close_ok s p k        k = KPending -> has_pending s p = true;
+     Channel.Proofs.reachable cc s   s is reached from the funded channel by
+                           ANY interleaving of sends, signatures, revocations
+                           and deliveries (C01);
+     Channel.Discipline.dreachable_ok cc x   the same with reconnects
+                           (channel_reestablish, C03) under the link discipline;
+     chan_reachable cc s   either of the two. *)
 From Coq Require Import List NArith ZArith Bool.
 From LV Require Import Arb.ActionsModel Arb.ActionsProofs.
+From LV Require Channel.Model Channel.Proofs Channel.Resync Channel.Discipline.
+From LV Require Import Arb.Shape.
 Import ListNotations.
 Local Open Scope N_scope.
 
@@ -173,3 +193,99 @@ Theorem C12_breach_all_failed :
       res_idxs out_kind (f_resolvers ef) = [] /\
       res_idxs in_kind (f_resolvers ef) = [].
 Proof. exact breach_all_failed. Qed.
+
+(* ------------------------------------------------------------------ *)
+(* The shape hypotheses are theorems about the channel state machine: in every
+   reachable state, for either party, the three HTLC sets have unique indexes
+   per commitment and direction, and every offered HTLC of our own commitment
+   is also on the peer's current commitment and on its pending one (if any). *)
+Theorem C12_shape_reachable :
+  forall cc s, Channel.Model.cfg_ok cc -> Channel.Proofs.reachable cc s ->
+  forall p, shape (has_pending s p) (sets_of s p).
+Proof. exact shape_reachable. Qed.
+
+(* ... and the same across reconnects: every state reached by link-disciplined
+   steps with successful channel_reestablish resynchronisations (C03). *)
+Theorem C12_shape_reachable_resync :
+  forall cc x, Channel.Model.cfg_ok cc -> Channel.Discipline.dreachable_ok cc x ->
+  forall p, shape (has_pending (Channel.Resync.xs x) p) (sets_of (Channel.Resync.xs x) p).
+Proof. exact shape_dreachable_ok. Qed.
+
+(* ... the guard on KPending is necessary: without a pending commitment the
+   (empty) pending set does not contain our offered HTLCs. *)
+Theorem C12_shape_pending_guard_needed :
+  exists cc s p, Channel.Model.cfg_ok cc /\ Channel.Proofs.reachable cc s /\
+                 has_pending s p = false /\ ~ local_sub_conf KPending (sets_of s p).
+Proof. exact pending_guard_needed. Qed.
+
+(* Caveat made precise (not a hypothesis of any theorem): the peer's current
+   and pending commitment can carry the same offered HTLC with different
+   dust-ness (fee update in between) while it is not yet on ours; there
+   checkRemoteDanglingActions depends on Go's map iteration order and the model
+   keeps the first record. *)
+Theorem C12_shape_dust_disagreement_reachable :
+  exists cc s p h1 h2,
+    Channel.Model.cfg_ok cc /\ Channel.Proofs.reachable cc s /\
+    In h1 (outs (c_remote (sets_of s p))) /\ In h2 (outs (c_pending (sets_of s p))) /\
+    h_idx h1 = h_idx h2 /\ h_dust h1 = false /\ h_dust h2 = true /\
+    ~ In (h_idx h1) (idxs (outs (c_local (sets_of s p)))).
+Proof. exact dust_disagreement_reachable. Qed.
+
+(* The classification theorems for HTLC sets that come from a reachable channel
+   state: no shape hypothesis left (res_complete is a fact about lnwallet's
+   resolutions, not about the sets). *)
+Theorem C12_classification_total_direct_reachable :
+  forall cc s p e k height r,
+    Channel.Model.cfg_ok cc -> chan_reachable cc s ->
+    uni k = true -> r_breach r = false -> res_complete r (conf_of k (sets_of s p)) ->
+    exists a' ef,
+      on_close false e arb0 k height (sets_of s p) r (sets_of s p) = Some (a', ef) /\
+      closed_state (ar_state a') = true /\
+      close_guarantees e k (sets_of s p) ef /\
+      (forall x, must_fail e (kkey k) (sets_of s p) x -> cnt x (f_fail ef) = 1%nat).
+Proof. exact classification_direct_reachable. Qed.
+
+Theorem C12_classification_partial_broadcast_reachable :
+  forall cc s p e user h0 k h1 r a1 ef1,
+    Channel.Model.cfg_ok cc -> chan_reachable cc s -> close_ok s p k ->
+    uni k = true -> r_breach r = false -> res_complete r (conf_of k (sets_of s p)) ->
+    trigger_step false e user h0 (sets_of s p) = Some (a1, ef1) -> f_force ef1 = 1 ->
+    let c := sets_of s p in
+    exists a2 ef2,
+      on_close false e a1 k h1 c r c = Some (a2, ef2) /\
+      closed_state (ar_state a2) = true /\
+      close_guarantees e k c ef2 /\
+      (forall x, (cnt x (f_fail ef1 ++ f_fail ef2) <= 1)%nat) /\
+      (forall x, In x (idxs (others (kkey k) c)) -> ~ In x (idxs (outs (conf_of k c))) ->
+                 no_pre e c x ->
+                 (forall m, In m (others (kkey k) c) -> h_idx m = x -> h_dust m = false) ->
+                 cnt x (f_fail ef1 ++ f_fail ef2) = 1%nat).
+Proof. exact classification_broadcast_partial_reachable. Qed.
+
+Theorem C12_classification_total_fixed_reachable :
+  forall cc s p e k r,
+    Channel.Model.cfg_ok cc -> chan_reachable cc s ->
+    uni k = true -> r_breach r = false -> res_complete r (conf_of k (sets_of s p)) ->
+    let c := sets_of s p in
+    (forall height, exists a' ef,
+        on_close true e arb0 k height c r c = Some (a', ef) /\
+        closed_state (ar_state a') = true /\ close_guarantees e k c ef /\
+        (forall x, must_fail e (kkey k) c x -> (1 <= cnt x (f_fail ef))%nat)) /\
+    (forall user h0 h1 a1 ef1,
+        trigger_step true e user h0 c = Some (a1, ef1) -> f_force ef1 = 1 ->
+        exists a2 ef2,
+          on_close true e a1 k h1 c r c = Some (a2, ef2) /\
+          closed_state (ar_state a2) = true /\ close_guarantees e k c ef2 /\
+          (forall x, must_fail e (kkey k) c x ->
+                     (1 <= cnt x (f_fail ef1 ++ f_fail ef2))%nat)).
+Proof. exact classification_fixed_reachable. Qed.
+
+Theorem C12_no_failback_with_output_reachable :
+  forall cc s p fixed e a k height r active,
+    Channel.Model.cfg_ok cc -> chan_reachable cc s ->
+    uni k = true -> start_ok a -> r_breach r = false ->
+    exists a' ef,
+      on_close fixed e a k height (sets_of s p) r active = Some (a', ef) /\
+      forall h, In h (outs (conf_of k (sets_of s p))) -> h_dust h = false ->
+                cnt (h_idx h) (f_fail ef) = O.
+Proof. exact no_failback_with_output_reachable. Qed.
